@@ -17,6 +17,8 @@ import (
 	"github.com/blugelabs/bluge/analysis/lang/en"
 	"github.com/blugelabs/bluge/analysis/lang/fr"
 	"github.com/blugelabs/bluge/analysis/lang/ru"
+	"github.com/blugelabs/bluge/analysis/token"
+	"github.com/blugelabs/bluge/analysis/tokenizer"
 	"pgregory.net/rapid"
 
 	"verifharness/vlib"
@@ -33,7 +35,11 @@ var ev = vlib.NewEvidence("C20",
 // ---------------------------------------------------------------------------------------------
 // analyzers
 
-var analyzerNames = []string{"standard", "standard", "standard", "simple", "web", "en", "fr", "ru", "cjk", "cjk", "keyword"}
+// "shingle", "ngram" and "edge" produce NESTED term locations (a word and the shingles around it,
+// the n-grams inside a word): the longer location starts before or with the shorter one and ends
+// after it (since seeded change C20-6; the bundled language analyzers only produce chains of
+// overlapping CJK bigrams)
+var analyzerNames = []string{"standard", "standard", "standard", "simple", "web", "en", "fr", "ru", "cjk", "cjk", "keyword", "shingle", "shingle", "ngram", "edge"}
 
 func analyzerOf(name string) *analysis.Analyzer {
 	switch name {
@@ -51,6 +57,15 @@ func analyzerOf(name string) *analysis.Analyzer {
 		return cjk.Analyzer()
 	case "keyword":
 		return analyzer.NewKeywordAnalyzer()
+	case "shingle":
+		return &analysis.Analyzer{Tokenizer: tokenizer.NewUnicodeTokenizer(),
+			TokenFilters: []analysis.TokenFilter{token.NewLowerCaseFilter(), token.NewShingleFilter(2, 3, true, " ", "_")}}
+	case "ngram":
+		return &analysis.Analyzer{Tokenizer: tokenizer.NewUnicodeTokenizer(),
+			TokenFilters: []analysis.TokenFilter{token.NewLowerCaseFilter(), token.NewNgramFilter(1, 3)}}
+	case "edge":
+		return &analysis.Analyzer{Tokenizer: tokenizer.NewUnicodeTokenizer(),
+			TokenFilters: []analysis.TokenFilter{token.NewLowerCaseFilter(), token.NewEdgeNgramFilter(token.FRONT, 1, 4)}}
 	}
 	return analyzer.NewStandardAnalyzer()
 }
@@ -104,7 +119,8 @@ func genText(t *rapid.T, pool []string, targetRunes int, label string) string {
 	return sb.String()
 }
 
-var sizes = []int{1, 2, 5, 20, 200}
+// (3, 8, 12, 14, 50 since seeded change C20-6: sizes between the length of a word and of the shingle around it)
+var sizes = []int{1, 2, 5, 20, 200, 3, 8, 12, 14, 50}
 
 func genHL(t *rapid.T, label string) HL {
 	return HL{
@@ -201,7 +217,7 @@ func mutateTerm(t *rapid.T, term string) string {
 	return term
 }
 
-func genQuery(t *rapid.T, a *analysis.Analyzer, docs []string) Query {
+func genQuery(t *rapid.T, a *analysis.Analyzer, docs []string, nestedAnalyzer bool) Query {
 	// the query is built from the tokens of the first document that has any
 	var ok analysis.TokenStream
 	var text string
@@ -223,7 +239,11 @@ func genQuery(t *rapid.T, a *analysis.Analyzer, docs []string) Query {
 		return Query{Kind: "all"}
 	}
 	n := len(ok)
-	switch rapid.IntRange(0, 13).Draw(t, "queryKind") {
+	qk := rapid.IntRange(0, 13).Draw(t, "queryKind")
+	if nestedAnalyzer && qk < 8 && qk%2 == 0 {
+		qk = 13 // analyzers with nested locations: half of the queries are disjunctions of neighbouring tokens
+	}
+	switch qk {
 	case 0, 1, 2, 3:
 		// surface text from token i to token j (for the CJK analyzer: a chain of bigrams)
 		i := pickToken(t, n, "from")
@@ -261,7 +281,15 @@ func genQuery(t *rapid.T, a *analysis.Analyzer, docs []string) Query {
 		return Query{Kind: "prefix", Text: string(r[:k])}
 	default:
 		var terms []string
-		for i, k := 0, rapid.IntRange(2, 4).Draw(t, "nterms"); i < k; i++ {
+		k := rapid.IntRange(2, 4).Draw(t, "nterms")
+		if rapid.Bool().Draw(t, "adjacentTerms") {
+			// neighbours in the token stream: with shingles / n-grams these are nested or share a start
+			for i, j := 0, pickToken(t, n, "firstTerm"); i < k && j < n; i, j = i+1, j+1 {
+				terms = append(terms, string(ok[j].Term))
+			}
+			return Query{Kind: "should", Terms: terms}
+		}
+		for i := 0; i < k; i++ {
 			terms = append(terms, string(ok[pickToken(t, n, "term")].Term))
 		}
 		return Query{Kind: "should", Terms: terms}
@@ -273,8 +301,13 @@ func genCase(t *rapid.T) Case {
 	c.Analyzer = rapid.SampledFrom(analyzerNames).Draw(t, "analyzer")
 	a := analyzerOf(c.Analyzer)
 	nh := rapid.IntRange(1, 3).Draw(t, "nHL")
+	nested := c.Analyzer == "shingle" || c.Analyzer == "ngram" || c.Analyzer == "edge"
 	for i := 0; i < nh; i++ {
-		c.HLs = append(c.HLs, genHL(t, "hl"))
+		hl := genHL(t, "hl")
+		if nested && rapid.Bool().Draw(t, "midSize") {
+			hl.Size = rapid.IntRange(3, 18).Draw(t, "hlMidSize")
+		}
+		c.HLs = append(c.HLs, hl)
 	}
 	// a small pool of words; the CJK analyzer gets mostly CJK words
 	var pool []string
@@ -293,7 +326,7 @@ func genCase(t *rapid.T) Case {
 		}
 		c.Docs = append(c.Docs, genText(t, pool, target, "doc"))
 	}
-	c.Query = genQuery(t, a, c.Docs)
+	c.Query = genQuery(t, a, c.Docs, nested)
 	return c
 }
 
